@@ -117,6 +117,7 @@ pub fn check_text(w: &mut Worker, c: &Case) -> Verdict {
         "unicode" => "family:unicode",
         "soup" => "family:soup",
         "mutant" => "family:mutant",
+        "fuzz" => "family:fuzz",
         _ => "family:corpus",
     };
     acc.finish(rendered)
@@ -450,6 +451,9 @@ pub fn run(ctx: &Ctx) {
     ctx.run_table(&Total, "corpus", corpus(), false);
     let tier = ctx.tier;
     ctx.run_generated(&Total, ctx.tier.pick(60_000, 2_000_000), || case_strategy(tier));
+    if tier == Tier::Thorough {
+        crate::fuzzdec::campaign(ctx, "C01", "c01_total");
+    }
 }
 
 pub fn replay(w: &mut Worker, sub: &str, case: &serde_json::Value) -> Option<Verdict> {
